@@ -1,7 +1,7 @@
 """C06 - the bus authenticates a peer only after a mechanism accepted it."""
 import binascii
 
-from ..engine import Spec, assume, check, reached, HarnessError, notrace, mkbytes, concrete
+from ..engine import Spec, assume, check, reached, HarnessError, notrace, mkbytes, concrete, decode_choice, encode_choice
 from ..runner import Ob
 from ..fakes import FakeTransport
 
@@ -23,7 +23,7 @@ EXPLANATION = (
     'line sequences of any length. run: k lines from the real initial state through the real dataReceived (first '
     'byte, line splitting across reads, length limit symbolic). mech: the three real mechanisms (cookie hash with an '
     'uninterpreted digest). e2e: real client authenticator against the real bus authenticator.')
-BOUNDS = {'quick': 'step: all (state, counter, mechanism, line shape, outcome) combinations; run: k <= 3 lines from 10 shapes; '
+BOUNDS = {'quick': 'step: all (state, counter, mechanism, line shape, outcome) combinations; run: k <= 3 lines from 8 shapes; '
                    'mech: cookie response tokens symbolic (4 bytes each)',
           'thorough': 'run: k <= 4'}
 ASSUMPTIONS = ['mechanisms in step/run are scripted stubs (OK / CONTINUE / REJECTED chosen by the solver); the real ones are checked in mech',
@@ -121,7 +121,7 @@ def obligations(tier):
             obs.append(Ob('step:%s:line%02d' % (st, li), 'step', {'state': si, 'line': li}, timeout=120, path_timeout=20,
                           twin=(li % 4 == 0), functions=FUNCS[:9],
                           bounds='reject counter 0..5 and mechanism outcome symbolic'))
-    kmax = 2 if tier == 'quick' else 4
+    kmax = 3 if tier == 'quick' else 4
     for k in range(1, kmax + 1):
         for nul in (True, False):
             for split in (0, 1, 2):
@@ -139,9 +139,12 @@ def obligations(tier):
                                   % (k, len(RUN_LINES))))
     obs.append(Ob('run:maxlen', 'maxlen', {}, timeout=120, twin=True, functions=FUNCS[13:],
                   bounds='line length limit and line lengths symbolic (small)'))
-    for m in ('EXTERNAL', 'ANONYMOUS', 'COOKIE'):
+    for m in ('EXTERNAL', 'ANONYMOUS'):
         obs.append(Ob('mech:' + m, 'mech', {'mech': m}, timeout=300, path_timeout=30, twin=True, functions=FUNCS[9:13],
-                      bounds='credentials present/absent, response tokens symbolic'))
+                      bounds='credentials present/absent, step count symbolic'))
+    for shape in range(6):
+        obs.append(Ob('mech:COOKIE:shape%d' % shape, 'mech', {'mech': 'COOKIE', 'shape': shape}, timeout=300, path_timeout=30,
+                      twin=True, functions=FUNCS[9:13], bounds='response tokens symbolic (digits), str/bytes, right/wrong hash'))
     for m in ('EXTERNAL', 'ANONYMOUS', 'DBUS_COOKIE_SHA1'):
         obs.append(Ob('e2e:' + m, 'e2e', {'mech': m}, timeout=120, path_timeout=30, twin=True,
                       functions=FUNCS[:13], bounds='concrete handshake; reject prefix count symbolic 0..4'))
@@ -246,7 +249,7 @@ def build(family, p):
     if family == 'maxlen':
         return _build_maxlen()
     if family == 'mech':
-        return _build_mech(p['mech'])
+        return _build_mech(p['mech'], p.get('shape'))
     if family == 'e2e':
         return _build_e2e(p['mech'])
     raise KeyError(family)
@@ -286,14 +289,19 @@ def _build_run(p):
     from txdbus import authentication, error, protocol
     k, nul, split = p['k'], p['nul'], p['split']
 
-    def h(*args):
-        sels, outs = args[:k], args[k:]
-        for s in sels:
-            assume(0 <= s < len(RUN_LINES))
-        if p.get('first') is not None:
-            assume(sels[0] == p['first'])
-        for o in outs:
-            assume(0 <= o < 3)
+    first = p.get('first')
+    nfree = k if first is None else k - 1
+    sizes = [len(RUN_LINES)] * nfree + [3] * k
+
+    def h(code):
+        sel = decode_choice(code, sizes)      # one path per (line sequence, outcome script); the run is concrete
+        sels = ([first] if first is not None else []) + sel[:nfree]
+        outs = sel[nfree:]
+        with notrace():
+            run(sels, outs)
+        reached()
+
+    def run(sels, outs):
         log = []
         saved = protocol._is_linux
         protocol._is_linux = False
@@ -319,7 +327,6 @@ def _build_run(p):
         tr = pr.transport
         if not nul:
             check(tr.lost >= 1 and pr.authed == 0 and tr.written == [], 'missing initial NUL byte must close the connection')
-            reached()
             return
         # replay the reference model over the lines
         state, rej = 'WaitingForAuth', 0
@@ -352,13 +359,10 @@ def _build_run(p):
         check(got == exp_replies, 'replies differ from the authentication state machine')
         check((tr.lost >= 1) == closed, 'connection closed iff the state machine says so')
         check((pr.authed == 1) == authed and pr.authed <= 1, 'authenticated iff OK was followed by BEGIN')
-        reached()
     h.__name__ = 'run'
-    params = [('l%d' % i, int) for i in range(k)] + [('o%d' % i, int) for i in range(k)]
-    wit = [tuple([1] * k + [0] * k), tuple([2] + [6] * (k - 1) + [0] * k), tuple([3] * k + [2] * k)]
-    if k >= 2:
-        wit.append(tuple([1, 6] + [0] * (k - 2) + [0] * k))
-    return Spec(h, params, witnesses=wit)
+    wit = [[1] * k + [0] * k, [1] + [5] * (k - 1) + [0] * k, [2] * k + [2] * k, [0, 5, 0, 5][:k] + [0] * k]
+    wit = [(encode_choice((w[1:] if first is not None else w)[:nfree] + w[k:], sizes),) for w in wit]
+    return Spec(h, [('code', int)], witnesses=wit)
 
 
 def _build_maxlen():
@@ -394,7 +398,7 @@ def _build_maxlen():
     return Spec(h, [('L', int)], witnesses=[(5,), (1,), (4,), (40,)])
 
 
-def _build_mech(name):
+def _build_mech(name, fixed_shape=None):
     from txdbus import authentication
     if name == 'EXTERNAL':
         def h(have, uid, nsteps):
@@ -442,8 +446,8 @@ def _build_mech(name):
     def h(c0, r0, as_str, right, shape):
         for b in (c0, r0):
             assume(48 <= b <= 57)      # tokens of ASCII digits (no whitespace, hex-safe)
-        assume(0 <= shape < len(SHAPES))
-        kind = SHAPES[shape]
+        assume(shape == fixed_shape)
+        kind = SHAPES[fixed_shape]
         with notrace():
             m = authentication.BusCookieAuthenticator()
             m.challenge_str = b'CH'
@@ -484,9 +488,8 @@ def _build_mech(name):
         reached()
     h.__name__ = 'mech_cookie'
     return Spec(h, [('c0', int), ('r0', int), ('as_str', bool), ('right', bool), ('shape', int)],
-                witnesses=[(48, 50, False, True, 0), (48, 50, True, True, 0), (48, 50, True, False, 0), (48, 50, False, False, 0),
-                           (48, 50, True, True, 1), (48, 50, True, False, 2), (48, 50, True, False, 3), (48, 50, False, False, 4),
-                           (48, 50, False, False, 5)])
+                witnesses=[(48, 50, False, True, fixed_shape), (48, 50, True, True, fixed_shape),
+                           (57, 48, True, False, fixed_shape), (48, 50, False, False, fixed_shape)])
 
 
 def _build_e2e(mech):
